@@ -382,8 +382,11 @@ class Conflict:
         Args:
             tree: Working tree containing the files.
         """
+        # A helper file that cannot exist any more (a parent directory of the
+        # conflicted path was deleted or replaced by a file since the merge)
+        # needs no cleaning up.
         for fname in self.associated_filenames():
-            with contextlib.suppress(FileNotFoundError):
+            with contextlib.suppress(FileNotFoundError, NotADirectoryError):
                 osutils.delete_any(tree.abspath(fname))
 
     def do(self, action, tree):
